@@ -36,4 +36,9 @@ def lineStart : List Nat → Nat → Nat → Nat → Nat
 
 def colOf (content : List Nat) (o : Nat) : Nat := o - lineStart content o 0 0 + 1
 
+/-- the content-based definition of the line table of a text `c`: offset 0, and the offset
+after every line feed byte, as far as it lies inside the text -/
+def IsLineStart (c : List Nat) (x : Int) : Prop :=
+  x = 0 ∨ ∃ i : Nat, c[i]? = some 10 ∧ x = (i : Int) + 1 ∧ i + 1 < c.length
+
 end CueVerif.TokenFile
